@@ -249,6 +249,23 @@ class DynamicConstantProvider(DelegatingConstantProvider):
                 return
             self._pool.add_constant(value)
 
+    def add_concatenation(self, first: Any, second: Any) -> None:
+        """Entry point for the instrumented code. Add the concatenation of two strings.
+
+        The concatenation happens here, and only for real strings, because the
+        values are the arbitrary objects the subject under test passed to a method
+        called ``startswith`` or ``endswith`` (e.g., a tuple of prefixes).
+
+        Args:
+            first: The first observed value
+            second: The second observed value
+        """
+        # Might be proxies.
+        first = unwrap(first)
+        second = unwrap(second)
+        if type(first) is str and type(second) is str:
+            self.add_value(first + second)
+
     def add_value_for_strings(self, value: str, name: str):
         """Entry point for the instrumented code. Add a value of a string.
 
